@@ -172,6 +172,7 @@ func (mw *msgWriter) Write(p []byte) (_ int, err error) {
 	}
 
 	if mw.flate {
+		vpool(3, 3, mw.flateWriter)
 		return mw.flateWriter.Write(p)
 	}
 
@@ -206,6 +207,7 @@ func (mw *msgWriter) Close() (err error) {
 	}()
 
 	if mw.flate {
+		vpool(3, 3, mw.flateWriter)
 		err = mw.flateWriter.Flush()
 		if err != nil {
 			return fmt.Errorf("failed to flush flate: %w", err)
